@@ -1,3 +1,7 @@
 import RaftVerif.Core.LogsStep
 import RaftVerif.Proofs.ServerLocal
-/-! # C04 — log matching and AppendEntries consistency.  Registered: `RP.log_matching`. -/
+import RaftVerif.Proofs.AELog
+/-! # C04 — log matching and AppendEntries consistency.
+
+Registered: `RP.log_matching` (cluster model), `SV.ae_stale_term_inert`, `SV.ae_success_sound`,
+`SV.aePrevOk_true`, `SV.ae_success_log`, `SV.applyAll_sorted` (stepped model of the real handler). -/
